@@ -7,7 +7,7 @@ import inspect
 import itertools
 
 BASE_KINDS = ["M0", "MN", "SP0", "SPN"]
-OPS = ["inst", "inst_kw", "meta", "fields", "inst_sub", "inst_base"]
+OPS = ["inst", "inst_kw", "inst_pos", "meta", "fields", "inst_sub", "inst_sub_pos", "inst_base", "inst_base_pos"]
 
 
 def shapes():
@@ -25,24 +25,32 @@ def shapes():
 
 def sequences(shape):
     seqs = [["inst", "inst_kw", "inst"], ["meta", "inst", "inst_kw"], ["fields", "inst_kw", "inst"]]
+    # the key handed over POSITIONALLY as first use, as later use, after a lookup (S and the spec
+    # bases are keyed): the positional arguments must reach every user __new__ of the MRO
+    seqs += [["inst_pos", "inst_kw", "inst_pos"], ["inst", "inst_pos", "inst_kw"], ["meta", "inst_pos", "inst"]]
     if shape["sub"] is not None:
         seqs += [["inst_sub", "inst", "inst_sub"], ["meta", "inst_sub", "inst_kw"]]
+        seqs += [["inst_sub_pos", "inst_pos", "inst_sub"], ["inst", "inst_sub_pos", "inst_sub_pos"]]
     if any(b in ("SP0", "SPN") for b in shape["bases"]):
         seqs += [["inst_base", "inst", "inst_kw"], ["inst", "inst_base", "inst_base"]]
+        seqs += [["inst_base_pos", "inst_pos", "inst_base"], ["inst_pos", "inst_base_pos", "inst_base_pos"]]
     return seqs
 
 
 def new_def(name, up):
-    call = "super().__new__(cls)" if up == "super" else "object.__new__(cls)"
+    # `super`: the arguments are handed on to the next __new__ of the MRO (object.__new__ refuses them)
+    call = ("(super().__new__(cls) if super().__new__ is object.__new__ else super().__new__(cls, *args, **kwargs))"
+            if up == "super" else "object.__new__(cls)")
     return [f"    def __new__(cls, *args, **kwargs):",
             f"        self = {call}",
             f"        object.__setattr__(self, '_made_by', getattr(self, '_made_by', ()) + ('{name}',))",
-            f"        LOG.append(('{name}', cls.__name__, len(args), tuple(sorted(kwargs))))",
+            f"        LOG.append(('{name}', cls.__name__, args, tuple(sorted(kwargs.items()))))",
             f"        return self"]
 
 
 def render(shape, eager):
     deco = "@spec_class(bootstrap=True)" if eager else "@spec_class"
+    kdeco = lambda key: f"@spec_class(key={key!r}, bootstrap=True)" if eager else f"@spec_class(key={key!r})"  # noqa: E731
     up = shape["up"]
     out = ["import dataclasses", "from spec_classes import spec_class, Attr", "LOG = []", ""]
     if "M0" in shape["bases"]:
@@ -50,10 +58,10 @@ def render(shape, eager):
     if "MN" in shape["bases"]:
         out += ["class MN:"] + new_def("MN", up) + [""]
     if "SP0" in shape["bases"]:
-        out += [deco, "class SP0:", "    p: int = 1", ""]
+        out += [kdeco("p"), "class SP0:", "    p: int = 1", ""]
     if "SPN" in shape["bases"]:
-        out += [deco, "class SPN:", "    q: int = Attr(default=2, repr=False)"] + new_def("SPN", up) + [""]
-    out += [deco, f"class S({', '.join(shape['bases'])}):".replace("()", ""),
+        out += [kdeco("q"), "class SPN:", "    q: int = Attr(default=2, repr=False)"] + new_def("SPN", up) + [""]
+    out += [kdeco("x"), f"class S({', '.join(shape['bases'])}):".replace("()", ""),
             "    x: int = 1", "    items: list = Attr(default_factory=list)"]
     if shape["own"]:
         out += new_def("S", "super")
@@ -107,9 +115,13 @@ def run(shape, seq, eager):
     for i, op in enumerate(seq):
         n0 = len(LOG)
         try:
-            if op in ("inst", "inst_kw", "inst_sub", "inst_base"):
-                T = {"inst": S, "inst_kw": S, "inst_sub": PS or S, "inst_base": base or S}[op]
-                o = T(x=10 + i) if (op == "inst_kw" and T is not base) else T()
+            if op.startswith("inst"):
+                T = {"inst": S, "inst_kw": S, "inst_pos": S, "inst_sub": PS or S, "inst_sub_pos": PS or S,
+                     "inst_base": base or S, "inst_base_pos": base or S}[op]
+                if op.endswith("_pos"):
+                    o = T(20 + i)  # the key, positionally
+                else:
+                    o = T(x=10 + i) if (op == "inst_kw" and T is not base) else T()
                 obs.append(["ok", repr(o), repr(getattr(o, "_made_by", ())), repr(LOG[n0:]),
                             repr(sorted(k for k in vars(o) if not k.startswith("_")))])
             elif op == "meta":
